@@ -38,7 +38,7 @@ def free_port():
 class Tacd:
     """One tacd process in the foreground."""
 
-    def __init__(self, domain, ext, listen=None, key_alg=None, digest=None, source="flag", workdir=None, exe=None):
+    def __init__(self, domain, ext, listen=None, key_alg=None, digest=None, source="flag", workdir=None, exe=None, nofile=None):
         self.dir = workdir or os.path.join(pool.scratch(), "tacd-%d-%d" % (os.getpid(), threading.get_ident() % 100000))
         os.makedirs(self.dir, exist_ok=True)
         self.unix = None
@@ -67,8 +67,14 @@ class Tacd:
         if digest:
             args += ["--crt-digest", digest]
         self.args = args
+        pre = None
+        if nofile:
+            import resource
+
+            def pre(n=nofile):
+                resource.setrlimit(resource.RLIMIT_NOFILE, (n, n))  # a small descriptor limit (ulimit -n / LimitNOFILE)
         self.p = subprocess.Popen(args, stdin=subprocess.PIPE if stdin_data is not None else subprocess.DEVNULL, stdout=subprocess.DEVNULL,
-                                  stderr=subprocess.PIPE, env=pool.base_env(), cwd=self.dir)
+                                  stderr=subprocess.PIPE, env=pool.base_env(), cwd=self.dir, preexec_fn=pre)
         if stdin_data is not None:
             try:
                 self.p.stdin.write(stdin_data)
